@@ -24,7 +24,7 @@ func c01Shapes(i int) []string {
 		"a", "b", "",
 		fmt.Sprintf("{r%d: /a|c/}", i), fmt.Sprintf("{s%d: /[ab]+/}", i),
 		fmt.Sprintf("a-{t%d}", i),
-		fmt.Sprintf("{g%d: /(a|c)/}", i), fmt.Sprintf("a+{u%d}", i),
+		fmt.Sprintf("{g%d: /(a|c)/}", i), fmt.Sprintf("a+{u%d}", i), fmt.Sprintf("{e%d: /[ab]*/}", i),
 		fmt.Sprintf("{p%d}", i), fmt.Sprintf("{q%d}", i),
 		fmt.Sprintf("{m%d: **}", i), fmt.Sprintf("{n%d: **, capture: 2}", i), "{**}",
 	}
